@@ -445,7 +445,19 @@ def check_design_blocks(ctx, c, desc):
     except Exception as e:  # noqa: BLE001
         ctx.skip(f"design blocks not reachable through the solver entry points ({type(e).__name__})")
         return
-    m = ctx.driver().call("design", nt=nt, nx=nx, nm=len(pairs), ix0=ix0)
+    xa = np.asarray(c.x, dtype=float)
+    M = [[int(xa[t] >= s) - int(xa[h] >= s) for s in c.trans_att] for h, t in pairs]
+    m = ctx.driver().call("design", nt=nt, nx=nx, nm=len(pairs), ix0=ix0, M=M)
+    if pairs and ix0 and not c.double and "s_mt" in got:
+        # the stored values of the splice part of the matching rows, entry for entry (explicit zeros included)
+        Xm = r["X_m"].tocoo()
+        trip = sorted((int(a), int(b) - (2 + nt), float(v)) for a, b, v in zip(Xm.row, Xm.col, Xm.data) if b >= 2 + nt)
+        want_t = sorted(zip(m["s_mt"]["row"], m["s_mt"]["col"], [float(v) for v in m["s_mt_data"]]))
+        ctx.count("design blocks compared")
+        if trip != want_t:
+            first = next((i for i, (u, v) in enumerate(zip(trip, want_t)) if u != v), min(len(trip), len(want_t)))
+            ctx.mismatch("Design.s_mt (row, col, value) entries", desc, dict(n=len(want_t), first=want_t[first:first + 3]),
+                         dict(n=len(trip), first=trip[first:first + 3]))
     for key, g in got.items():
         if "[" in key:
             name, a = key[:-1].split("[")
